@@ -442,6 +442,13 @@ class Topology(System):
         extension = path.suffix.casefold()[1:]
         positions, self.box = _coord_parser(path, extension)
         max_coords = len(positions)
+        # a file that holds a coordinate for everything in the topology also holds
+        # the residues that are to be skipped; they are passed over, not left out
+        if resolution == 'meta_mol':
+            n_expected = sum(len(meta_mol.nodes) for meta_mol in self.molecules)
+        else:
+            n_expected = sum(len(meta_mol.molecule.nodes) for meta_mol in self.molecules)
+        skipped_in_file = bool(skip_res) and max_coords == n_expected
         total = 0
         for meta_mol in self.molecules:
             # the file lists the atoms in the order of the itp-file, in which the
@@ -449,7 +456,7 @@ class Topology(System):
             # are skipped are not part of the file
             all_idxs = nx.get_node_attributes(meta_mol.molecule, "index")
             skipped = {node for res_node in meta_mol.nodes
-                       if meta_mol.nodes[res_node]["resname"] in skip_res
+                       if meta_mol.nodes[res_node]["resname"] in skip_res and not skipped_in_file
                        for node in meta_mol.nodes[res_node]["graph"].nodes}
             in_file = [node for node in sorted(all_idxs, key=all_idxs.get) if node not in skipped]
             file_idxs = {node: total + count for count, node in enumerate(in_file)}
@@ -474,6 +481,8 @@ class Topology(System):
                 if resname in skip_res or total >= max_coords:
                     meta_mol.nodes[meta_node]["build"] = True
                     meta_mol.nodes[meta_node]["backmap"] = True
+                    if skipped_in_file and resname in skip_res:
+                        total += 1 if resolution == 'meta_mol' else len(mol_nodes)
                 # here we only add meta_molecule coordiantes
                 # in that case we only want to backmap
                 elif resolution == 'meta_mol':
